@@ -190,6 +190,7 @@ class Assembled:
         self.clauses = []  # dict(name, unit, fn, section, idx, tags, start, end, text)
         self.functions = []  # dict(unit, key, file, lines, sha256, body_tags, ...)
         self.trusted = []
+        self.rewrites = []
         self.unit = None
         self.props = set()
 
@@ -223,7 +224,7 @@ def _kv(tokens):
     return kv, flags
 
 
-def _inject_body(asm, ex, relfile, fnitem, loops, closures, hints, fninfo, mutate=None):
+def _inject_body(asm, ex, relfile, fnitem, loops, closures, hints, fninfo, rewrites=()):
     """Emit the function body with loop/closure injections; body text is verbatim otherwise."""
     src = ex[relfile]["src"]
     b0, b1 = fnitem["body"][0], fnitem["body"][1]
@@ -260,6 +261,15 @@ def _inject_body(asm, ex, relfile, fnitem, loops, closures, hints, fninfo, mutat
             raise Infra("lost anchor: hint anchor %r occurs %d times in %s" % (anchor, cnt, fnitem["key"]))
         off = b0 + len(body_text[: body_text.index(anchor)].encode())
         edits.append((off, 0, proof + " ", {"kind": "hint", "fn": fninfo}))
+    for (frm, to) in rewrites:
+        # documented token substitution (DESIGN 3.5): every occurrence, at least one
+        idx = [m.start() for m in re.finditer(re.escape(frm), body_text)]
+        if not idx:
+            raise Infra("lost anchor: rewrite source %r does not occur in %s" % (frm, fnitem["key"]))
+        for ix in idx:
+            off = b0 + len(body_text[:ix].encode())
+            edits.append((off, len(frm.encode()), to, {"kind": "rewrite", "fn": fninfo, "from": frm, "to": to}))
+        asm.rewrites.append({"fn": fnitem["key"], "file": relfile, "from": frm, "to": to, "occurrences": len(idx)})
     edits.sort(key=lambda e: (e[0], e[1]))
     cur = b0
     for (off, rem, text, info) in edits:
@@ -381,6 +391,7 @@ def assemble(unit_file, canary=False, mutate_spec=None):
             loops = {}
             closures = {}
             hints = []
+            rewrites = []
             cur = ("spec", None)
             buf = spec_lines
             while True:
@@ -404,6 +415,9 @@ def assemble(unit_file, canary=False, mutate_spec=None):
                     buf = []
                     tg = m.group(3).split("=")[1].split(",") if m.group(3) else body_tags
                     closures[int(m.group(1))] = [m.group(2), buf, tg]
+                elif s2.startswith("//@ REWRITE"):
+                    a, pr = s2[len("//@ REWRITE"):].split("@@", 1)
+                    rewrites.append((a.strip(), pr.strip()))
                 elif s2.startswith("//@ HINT"):
                     a, pr = s2[len("//@ HINT"):].split("@@", 1)
                     hints.append((a.strip(), pr.strip()))
@@ -453,7 +467,7 @@ def assemble(unit_file, canary=False, mutate_spec=None):
                     lp[k] = (lspec, tg)
                 clp = {k: (p, "\n".join(b), tg) for k, (p, b, tg) in closures.items()}
                 body_start = asm.pos
-                _inject_body(asm, ex, relfile, it, lp, clp, hints, fninfo)
+                _inject_body(asm, ex, relfile, it, lp, clp, hints, fninfo, rewrites)
                 # register loop invariant clauses
                 for (a, b, info) in asm.regions:
                     if a >= body_start and info.get("kind") in ("loopspec", "closurespec") and info["fn"] is fninfo:
